@@ -502,26 +502,26 @@ the preferred engine is the fixed relation's, back-tracking on, no transfer): wh
 was back-tracked into the database, and the result is well-formed, lives in the target's engine and has the columns
 and - as a multiset - the rows of the join (on the common columns `_begin_apply` resolved) applied at the root. -/
 theorem applyOp_pj_backtracked (σ : Leaves) (st : Store) (fuel : Nat) (p : PJoin) (t : Rel) (o : Opts)
-    (hpref : o.pref = none) (hbt : o.backtrack = true) (htr : o.transfer = false)
+    (hpref : o.pref = none ∨ o.pref = some p.fixed.engine) (hbt : o.backtrack = true) (htr : o.transfer = false)
     (hkt : t.engine.kind = .iter) (hks : p.fixed.engine.kind = .sql)
     (gF : Good NodeInv.triv σ p.fixed)
     (hfix0 : p.join.resolved = true → p.join.minCols.subset p.fixed.columns = true)
     (hwf : t.WF) (htrt : t.Truthful σ) (hpo : t.prefTargetsGood NodeInv.triv σ p.fixed.engine)
     (hnp : t.spineNoPayload st)
     (res : Res) (h : applyOp st fuel (.pj p) t o = .ok res) :
-    ∃ p', p.beginApply t none = .ok (p', p.fixed.engine) ∧ BTJ σ p' t (res.get t) := by
+    ∃ p', p.beginApply t o.pref = .ok (p', p.fixed.engine) ∧ BTJ σ p' t (res.get t) := by
   cases fuel with
   | zero => rw [applyOp] at h; cases h
   | succ fuel =>
     rw [applyOp] at h
-    simp only [AnyOp.beginApply, bind, Except.bind, pure, Except.pure, Except.map, hpref] at h
-    cases hb : p.beginApply t none with
+    simp only [AnyOp.beginApply, bind, Except.bind, pure, Except.pure, Except.map] at h
+    cases hb : p.beginApply t o.pref with
     | error e => simp [hb] at h
     | ok v =>
       obtain ⟨p', e⟩ := v
-      obtain ⟨f1, _, _, f4, f5, _, _, _⟩ := pjBeginApply_ok p t none p' e hfix0 hb
-      obtain ⟨hreq, hres'⟩ := pjBeginApply_req p t none p' e hb
-      have he : e = p.fixed.engine := f4
+      obtain ⟨f1, _, _, f4, f5, _, _, _⟩ := pjBeginApply_ok p t o.pref p' e hfix0 hb
+      obtain ⟨hreq, hres'⟩ := pjBeginApply_req p t o.pref p' e hb
+      have he : e = p.fixed.engine := by rcases hpref with hq | hq <;> simp [f4, hq]
       subst he
       have hne : p.fixed.engine ≠ t.engine := fun hh => by rw [hh, hkt] at hks; cases hks
       have hne' : (p.fixed.engine != t.engine) = true := by simpa using hne
@@ -567,14 +567,14 @@ structure JoinedIn (σ : Leaves) (p : PJoin) (t t' : Rel) : Prop where
 /-- **`relation.join(fixed, transfer=...)`**: as `applyOp_pj_backtracked`, for either value of `transfer`: when
 back-tracking does not finish and `transfer=True`, the target is transferred into the database and joined there. -/
 theorem applyOp_pj_any_transfer (σ : Leaves) (st : Store) (fuel : Nat) (p : PJoin) (t : Rel) (o : Opts)
-    (hpref : o.pref = none) (hbt : o.backtrack = true)
+    (hpref : o.pref = none ∨ o.pref = some p.fixed.engine) (hbt : o.backtrack = true)
     (hkt : t.engine.kind = .iter) (hks : p.fixed.engine.kind = .sql)
     (gF : Good NodeInv.triv σ p.fixed)
     (hfix0 : p.join.resolved = true → p.join.minCols.subset p.fixed.columns = true)
     (hwf : t.WF) (htrt : t.Truthful σ) (hpo : t.prefTargetsGood NodeInv.triv σ p.fixed.engine)
     (hnp : t.spineNoPayload st) (hts : o.transfer = true → transferSimplify p.fixed.engine t = none)
     (res : Res) (h : applyOp st fuel (.pj p) t o = .ok res) :
-    ∃ p', p.beginApply t none = .ok (p', p.fixed.engine) ∧
+    ∃ p', p.beginApply t o.pref = .ok (p', p.fixed.engine) ∧
       (BTJ σ p' t (res.get t) ∨ (o.transfer = true ∧ JoinedIn σ p' t (res.get t))) := by
   cases htr : o.transfer with
   | false =>
@@ -585,14 +585,14 @@ theorem applyOp_pj_any_transfer (σ : Leaves) (st : Store) (fuel : Nat) (p : PJo
     | zero => rw [applyOp] at h; cases h
     | succ fuel =>
       rw [applyOp] at h
-      simp only [AnyOp.beginApply, bind, Except.bind, pure, Except.pure, Except.map, hpref] at h
-      cases hb : p.beginApply t none with
+      simp only [AnyOp.beginApply, bind, Except.bind, pure, Except.pure, Except.map] at h
+      cases hb : p.beginApply t o.pref with
       | error e => simp [hb] at h
       | ok v =>
         obtain ⟨p', e⟩ := v
-        obtain ⟨f1, _, _, f4, f5, f6, f7, _⟩ := pjBeginApply_ok p t none p' e hfix0 hb
-        obtain ⟨hreq, hres'⟩ := pjBeginApply_req p t none p' e hb
-        have he : e = p.fixed.engine := f4
+        obtain ⟨f1, _, _, f4, f5, f6, f7, _⟩ := pjBeginApply_ok p t o.pref p' e hfix0 hb
+        obtain ⟨hreq, hres'⟩ := pjBeginApply_req p t o.pref p' e hb
+        have he : e = p.fixed.engine := by rcases hpref with hq | hq <;> simp [f4, hq]
         subst he
         have hne : p.fixed.engine ≠ t.engine := fun hh => by rw [hh, hkt] at hks; cases hks
         have hne' : (p.fixed.engine != t.engine) = true := by simpa using hne
@@ -726,14 +726,14 @@ theorem pj_joined_after_transfer (σ : Leaves) (st : Store) (fuel : Nat) (p p' :
 /-- **`PartialJoin.apply` with EVERY combination of `backtrack` / `transfer` / `require_preferred_engine`** (preferred
 engine = the fixed relation's database, target in an iteration engine). -/
 theorem applyOp_pj_all_options (σ : Leaves) (st : Store) (fuel : Nat) (p : PJoin) (t : Rel) (o : Opts)
-    (hpref : o.pref = none)
+    (hpref : o.pref = none ∨ o.pref = some p.fixed.engine)
     (hkt : t.engine.kind = .iter) (hks : p.fixed.engine.kind = .sql)
     (gF : Good NodeInv.triv σ p.fixed)
     (hfix0 : p.join.resolved = true → p.join.minCols.subset p.fixed.columns = true)
     (hwf : t.WF) (htrt : t.Truthful σ) (hpo : t.prefTargetsGood NodeInv.triv σ p.fixed.engine)
     (hnp : t.spineNoPayload st) (hts : o.transfer = true → transferSimplify p.fixed.engine t = none)
     (res : Res) (h : applyOp st fuel (.pj p) t o = .ok res) :
-    ∃ p', p.beginApply t none = .ok (p', p.fixed.engine) ∧
+    ∃ p', p.beginApply t o.pref = .ok (p', p.fixed.engine) ∧
       ((o.backtrack = true ∧ BTJ σ p' t (res.get t)) ∨ (o.transfer = true ∧ JoinedIn σ p' t (res.get t))) := by
   cases hbt : o.backtrack with
   | true =>
@@ -745,13 +745,13 @@ theorem applyOp_pj_all_options (σ : Leaves) (st : Store) (fuel : Nat) (p : PJoi
     | zero => rw [applyOp] at h; cases h
     | succ fuel =>
       rw [applyOp] at h
-      simp only [AnyOp.beginApply, bind, Except.bind, pure, Except.pure, Except.map, hpref] at h
-      cases hb : p.beginApply t none with
+      simp only [AnyOp.beginApply, bind, Except.bind, pure, Except.pure, Except.map] at h
+      cases hb : p.beginApply t o.pref with
       | error e => simp [hb] at h
       | ok v =>
         obtain ⟨p', e⟩ := v
-        obtain ⟨f1, _, _, f4, f5, f6, f7, _⟩ := pjBeginApply_ok p t none p' e hfix0 hb
-        have he : e = p.fixed.engine := f4
+        obtain ⟨f1, _, _, f4, f5, f6, f7, _⟩ := pjBeginApply_ok p t o.pref p' e hfix0 hb
+        have he : e = p.fixed.engine := by rcases hpref with hq | hq <;> simp [f4, hq]
         subst he
         have hne : p.fixed.engine ≠ t.engine := fun hh => by rw [hh, hkt] at hks; cases hks
         have hne' : (p.fixed.engine != t.engine) = true := by simpa using hne
@@ -812,7 +812,7 @@ theorem binaryApply_join_cross_engine_error (st : Store) (fuel : Nat) (j : JoinO
 
 /-- `relation.join(fixed, backtrack=False, transfer=False)` across engines never returns a relation. -/
 theorem applyOp_pj_no_options_rejected (st : Store) (fuel : Nat) (p : PJoin) (t : Rel) (o : Opts)
-    (hpref : o.pref = none) (hbt : o.backtrack = false) (htr : o.transfer = false)
+    (hpref : o.pref = none ∨ o.pref = some p.fixed.engine) (hbt : o.backtrack = false) (htr : o.transfer = false)
     (hkt : t.engine.kind = .iter) (hne : p.fixed.engine ≠ t.engine)
     (hfix0 : p.join.resolved = true → p.join.minCols.subset p.fixed.columns = true)
     (res : Res) : applyOp st fuel (.pj p) t o ≠ .ok res := by
@@ -821,13 +821,13 @@ theorem applyOp_pj_no_options_rejected (st : Store) (fuel : Nat) (p : PJoin) (t 
   | zero => rw [applyOp] at h; cases h
   | succ fuel =>
     rw [applyOp] at h
-    simp only [AnyOp.beginApply, bind, Except.bind, pure, Except.pure, Except.map, hpref] at h
-    cases hb : p.beginApply t none with
+    simp only [AnyOp.beginApply, bind, Except.bind, pure, Except.pure, Except.map] at h
+    cases hb : p.beginApply t o.pref with
     | error e => simp [hb] at h
     | ok v =>
       obtain ⟨p', e⟩ := v
-      obtain ⟨f1, _, _, f4, _, _, _, _⟩ := pjBeginApply_ok p t none p' e hfix0 hb
-      have he : e = p.fixed.engine := f4
+      obtain ⟨f1, _, _, f4, _, _, _, _⟩ := pjBeginApply_ok p t o.pref p' e hfix0 hb
+      have he : e = p.fixed.engine := by rcases hpref with hq | hq <;> simp [f4, hq]
       subst he
       have hne' : (p.fixed.engine != t.engine) = true := by simpa using hne
       simp only [hb, hne', hbt, htr, if_true, Bool.false_eq_true, if_false, Bool.not_false, Res.get] at h
